@@ -149,7 +149,7 @@ pub fn gen_enc(args: &Args) {
     for x in fl {
         sample.push(("float".into(), x.to_bits().to_string(), Object::float(x, &mut gc), x));
     }
-    for s in ["", "a", "b", "ab", "é", "1", "0", "ja", "10", "1.5"] {
+    for s in ["", "a", "b", "ab", "ac", "abc", "abd", "xbc", "ba", "é", "e", "éa", "1", "0", "ja", "10", "1.5", " ", "a ", "A"] {
         sample.push(("str".into(), s.to_string(), Object::string(s, &mut gc), 0.0));
     }
     while sample.len() < k {
